@@ -1,11 +1,13 @@
 package checks
 
 import (
+	"bytes"
 	"context"
 	"encoding/json"
 	"fmt"
 	"math/rand/v2"
 	"reflect"
+	"regexp"
 	"sort"
 	"strings"
 	"time"
@@ -572,6 +574,21 @@ func stateCheck(r *core.Run, prop string) {
 	if len(segs) > 0 {
 		r.Sample(map[string]any{"trace_head": strings.Join(strings.SplitN(core.SegTrace(segs[0]), "\n", 5)[:4], " ")})
 	}
+	segSelfTest(r, "state", "StateTrace", "", segs, []core.Corruption{
+		{"Apply reported an error for a message it applied", core.ReplaceFirst(`"e":"apply"`, `"err":false`, `"err":true`)},
+		{"an applied insert is missing from the collections", func(lines [][]byte) [][]byte {
+			re := regexp.MustCompile(`"state":\[\[[^\]]*\],?`)
+			for i, l := range lines {
+				if bytes.Contains(l, []byte(`"e":"apply"`)) && bytes.Contains(l, []byte(`"err":false`)) && re.Match(l) {
+					out := append([][]byte{}, lines...)
+					out[i] = re.ReplaceAll(l, []byte(`"state":[`))
+					return out
+				}
+			}
+			return nil
+		}},
+		{"the two-session materializer ended in another state", core.InsertIntoArray(`"e":"final"`, "state", `["ta","ghost",1]`)},
+	})
 	r.ValidateSegments(strings.ToLower(prop), "StateTrace", "", segs, func(rej core.SegReject) *core.Segment {
 		var ev struct {
 			E   string `json:"e"`
